@@ -13,6 +13,10 @@ PROPERTY = {
         Harness("c19_schedule_3", "C19.schedule.le3", "BOUNDED", "all schedules of <= 3 steps", bound="3 steps", functions=[F + "merge_channel", F + "Sender::modify", F + "Sender::drop", F + "Receiver::recv"]),
         Harness("c19_schedule_5", "C19.schedule.le5", "BOUNDED", "all schedules of <= 5 steps", bound="5 steps", tier="thorough", timeout=3000, functions=[F + "Receiver::recv", F + "Sender::modify"]),
         Harness("c19_schedule_7", "C19.schedule.le7", "BOUNDED", "all schedules of <= 7 steps", bound="7 steps", tier="thorough", timeout=3000, functions=[F + "Receiver::recv", F + "Sender::modify"]),
+        Harness("c19_scenario_park_merge_drop_poll_start", "C19.scenario.park_merge_drop_poll_start", "BOUNDED", "parked consumer; merge; sender dropped; poll => the update; next receive => end of stream (same assertions as the schedules)", bound="one concrete 5-step schedule", functions=[F + "Receiver::recv", F + "Sender::modify", F + "Sender::drop"]),
+        Harness("c19_scenario_park_merge_merge_poll_start", "C19.scenario.park_merge_merge_poll_start", "BOUNDED", "parked consumer; two merges; poll => both at once; next receive parks (no spurious end of stream) (same assertions as the schedules)", bound="one concrete 5-step schedule", functions=[F + "Receiver::recv", F + "Sender::modify", F + "Sender::drop"]),
+        Harness("c19_scenario_park_cancel_merge_start_start", "C19.scenario.park_cancel_merge_start_start", "BOUNDED", "park; cancel; merge; restart => the update; restart => parks (same assertions as the schedules)", bound="one concrete 5-step schedule", functions=[F + "Receiver::recv", F + "Sender::modify", F + "Sender::drop"]),
+        Harness("c19_scenario_park_merge_cancel_start_start", "C19.scenario.park_merge_cancel_start_start", "BOUNDED", "park; merge (woken); cancel before polling; restart => the update exactly once; restart => parks (same assertions as the schedules)", bound="one concrete 5-step schedule", functions=[F + "Receiver::recv", F + "Sender::modify", F + "Sender::drop"]),
         Harness("c19_modify_after_receiver_drop", "C19.sender_learns_receiver_gone", "PROVED-C", "modify returns Err(SendError) once the receiver is dropped", functions=[F + "Sender::modify", F + "Receiver::drop"]),
         Harness("c19_canary_value_received_twice", "C19.canary", "BOUNDED", "a false claim must be refuted", carries=False, canary=True),
     ],
